@@ -102,6 +102,11 @@ def run_e2e(ctx, p):
         jt = [ctx.real(f"jt{c}", -20, 20) for c in range(3)]
     search = make_pattern(ctx, None, elements=sel, positions=spos, translate=jt)
     replace = make_pattern(ctx, None, elements=rel, positions=rpos, translate=jt)
+    if p.get('unused_type_row'):
+        # the replacement pattern is a subset of a larger molecule: its type table has a trailing row that no atom uses
+        replace.atom_type_elements = list(replace.atom_type_elements) + ['Cl']
+        replace.atom_type_labels = list(replace.atom_type_labels) + ['Cl']
+        replace.atom_type_masses = list(replace.atom_type_masses) + [35.453]
     if p.get('pattern_terms') and len(rel) >= 2:
         replace.bonds = np.array([(0, 1)])
         replace.bond_types = np.array([0])
@@ -250,10 +255,7 @@ def same_sites(ctx, a_els, a_pos, b_els, b_pos, cell, tol=1e-5):
         for j in free:
             if a_els[i] != b_els[j]:
                 continue
-            try:
-                d = np.array([fl(b_pos[j][c] - a_pos[i][c]) for c in range(3)])
-            except core.Unsupported:
-                continue
+            d = np.array([fl(b_pos[j][c] - a_pos[i][c]) for c in range(3)])
             if np.linalg.norm(nearest_image(d, cell)) <= tol:
                 hit = j
                 break
